@@ -8,6 +8,8 @@ import (
 	"os"
 
 	intoto "github.com/in-toto/in-toto-golang/in_toto"
+
+	"verif/harness/hx"
 )
 
 // Request / Response of the isolated calls.
@@ -46,6 +48,16 @@ func fill(resp *runResp, m map[string]any) {
 
 func dispatch(mode string, args []string) bool {
 	switch mode {
+	case "verify":
+		if len(args) != 2 {
+			return false
+		}
+		res := hx.VerifyIsolated(args[0])
+		out, _ := json.Marshal(res)
+		if err := os.WriteFile(args[1], out, 0o644); err != nil {
+			os.Exit(2)
+		}
+		return true
 	case "run":
 		if len(args) != 2 {
 			return false
